@@ -111,6 +111,17 @@ def s06_perturbed(ctx):
                 if pr is None:
                     continue
                 fl, moved = pr
+                # moving an end ACROSS its trace also shifts that trace under the ends it hosts: keep the case only if every moved
+                # end is still where the case says it is, measured in the perturbed map itself
+                from shapely.geometry import LineString as _LS, Point as _Pt
+
+                def _gap(mv):
+                    e = fl[mv["trace"]][0 if mv["end"] == 0 else -1]
+                    return min(_LS(l).distance(_Pt(e)) for j, l in enumerate(fl) if j != mv["trace"])
+
+                if side == "connected" and any(_gap(mv) > 0.95 * t for mv in moved) or side != "connected" and any(_gap(mv) < 1.05 * t for mv in moved):
+                    res.skipped["perturbations_interact"] = res.skipped.get("perturbations_interact", 0) + 1
+                    continue
                 case = {"stream": "S06-perturbed", "t": t, "side": side, "traces": fl, "areas": area_rows([area]), "moved": moved, "exact_traces": lines(traces)}
                 if side == "connected":
                     exp_nodes = Counter(c for _, c in ar.nodes)
